@@ -473,17 +473,21 @@ def main(tier: str) -> int:
         raise explore.InternalError(f"reference endpoint fails its own oracle: {sv.violations[0][0]} choices={sv.violations[0][2]}")
     st = explore.dbdfs(("mc.checks.c01", "build"), param_list(tier), k, budget_s=(70 if tier == "quick" else 2400))
     st2 = explore.dbdfs(("mc.checks.c01", "build"), wrap_list(tier), 1 if tier == "quick" else 2, budget_s=(40 if tier == "quick" else 1200))
-    for s in (st, st2):
+    # the host's own frame numbers on their second lap with TWO deviations (e.g. a late copy of an old ACK + a lost DATA frame): host-only traffic
+    st3 = explore.dbdfs(("mc.checks.c01", "build"), [{"window": 1, "n_host": 10 if tier == "quick" else 18, "n_ncp": 0, "host": "bellows", "late_dup": True, "cancel": False}],
+                        2 if tier == "quick" else 3, budget_s=(120 if tier == "quick" else 1200))
+    for s in (st, st2, st3):
         for v, params, choices, labels in s.violations:
             rep.add_violation(vkey(v), v, {"world": "c01", "params": params, "choices": choices})
     if len(st.signatures) < 30:
         raise explore.InternalError(f"C01 vacuous: {len(st.signatures)} signatures")
-    capped = st.capped or st2.capped
+    capped = st.capped or st2.capped or st3.capped
     rep.coverage = {
-        "states": st.steps + st2.steps,
-        "transitions": st.steps + st2.steps,
-        "traces_validated_against_impl": st.executions + st2.executions,
-        "executions": st.executions + st2.executions,
+        "states": st.steps + st2.steps + st3.steps,
+        "transitions": st.steps + st2.steps + st3.steps,
+        "traces_validated_against_impl": st.executions + st2.executions + st3.executions,
+        "executions": st.executions + st2.executions + st3.executions,
+        "host_only_second_lap_executions": st3.executions,
         "self_validation_executions": sv.executions,
         "max_deviations_completed": k if not st.capped else k - 1,
         "wrap_run_deviations": 1 if tier == "quick" else 2,
